@@ -27,6 +27,26 @@ def _arm_watchdog(prop: str, seconds: int) -> None:
     signal.alarm(seconds)
 
 
+def replay_corpus(prop: str, mod, rep) -> None:
+    """Seconds-long regression tier: every saved case under corpus/<ID>/*.json (minimised failures from development,
+    from the sensitivity mutants and from the seeded changes) is re-evaluated through the check's own predicate."""
+    from .engine import CORPUS_DIR, Failure
+
+    d = CORPUS_DIR / prop
+    n = 0
+    if d.exists() and hasattr(mod, "replay"):
+        for p in sorted(d.glob("*.json")):
+            doc = json.loads(p.read_text())
+            n += 1
+            try:
+                res = mod.replay(doc["case"])
+            except Exception as e:  # a corpus case the current predicate cannot evaluate is a harness problem
+                raise HarnessError(f"corpus case {p} cannot be replayed: {e!r}") from None
+            for sig, msg in res or []:
+                rep.add_failure(Failure("corpus:" + sig, f"[{p.name}] {msg}", doc["case"], len(msg)))
+    rep.extra["corpus_cases_replayed"] = n
+
+
 def main() -> int:
     ap = argparse.ArgumentParser()
     ap.add_argument("prop")
@@ -53,6 +73,7 @@ def main() -> int:
     ctx = Ctx(prop=prop, tier=args.tier, seed=seed, t0=time.time())
     _arm_watchdog(prop, int(os.environ.get("KV_WATCHDOG_S", "1500" if args.tier == "quick" else "21600")))
     rep = mod.run(ctx)
+    replay_corpus(prop, mod, rep)
     return finish(ctx, rep)
 
 
